@@ -368,6 +368,12 @@ func c03(args []string) error {
 		f := formats[r.Intn(len(formats))]
 		file := validFile(r, f)
 		in := mutateFile(r, file)
+		if f == "clustal" && r.Intn(2) == 0 { // assembled line by line: every state of the modelled parser
+			in = clustalHand(r)
+			if r.Intn(6) == 0 {
+				in = mutateFile(r, in)
+			}
+		}
 		if r.Intn(5) == 0 {
 			in = mutateFile(r, in)
 		}
@@ -432,4 +438,80 @@ func c03(args []string) error {
 	}
 	writeStats(g.out, stats)
 	return nil
+}
+
+// clustalHand assembles a Clustal file token by token, each deviation from the writer's layout with a small
+// probability: keyword spellings, numeric / keyword names, tabs, CR LF, counts of every spelling or none, numeric
+// "sequences", missing or blank conservation lines, blocks of different sizes, names that differ between blocks.
+func clustalHand(r *rand.Rand) []byte {
+	pick := func(l []string) string { return l[r.Intn(len(l))] }
+	rare := func(n int, a, b string) string {
+		if r.Intn(n) == 0 {
+			return b
+		}
+		return a
+	}
+	eol := func() string { return rare(12, "\n", pick([]string{"\r\n", "\r\n", "\r", "\n\n", "\x00"})) }
+	var b bytes.Buffer
+	b.WriteString(pick([]string{"CLUSTAL W (1.82) multiple sequence alignment", "CLUSTAL", "clustalw", "ClustalW 2", "CLUSTAL W", "CLUSTAL\tW", "CLUSTALX 2.1", "CLUSTAL W 12 -3"}))
+	b.WriteString(eol())
+	for k := r.Intn(3); k > 0; k-- {
+		b.WriteString(rare(6, "", " ") + "\n")
+	}
+	nseq := 1 + r.Intn(4)
+	pool := []string{"a", "s1", "seq_2", "12", "-7", "+3", "CLUSTAL", "clustalw", "x\ty", "99999999999999999999", "9223372036854775808", "9223372036854775807", "b", "c", "é"}
+	names := make([]string, nseq)
+	for i := range names {
+		names[i] = pool[r.Intn(len(pool)-1)]
+		if r.Intn(3) > 0 {
+			names[i] += fmt.Sprint(i)
+		}
+	}
+	nblocks := 1 + r.Intn(3)
+	total := 0
+	for bl := 0; bl < nblocks; bl++ {
+		w := 1 + r.Intn(6)
+		total += w
+		n := nseq
+		if bl > 0 && r.Intn(8) == 0 {
+			n = nseq + r.Intn(3) - 1
+		}
+		for i := 0; i < n; i++ {
+			nm := "z"
+			if i < nseq {
+				nm = names[i]
+			}
+			if bl > 0 && r.Intn(15) == 0 {
+				nm = pick(pool)
+			}
+			sq := randSeq(r, w, func(r *rand.Rand) byte { return "ACGT-acgtN"[r.Intn(10)] })
+			sq = rare(25, sq, pick([]string{"123", "CLUSTAL", "-", "+5", "A\tC", "99999999999999999999", sq + "A"}))
+			b.WriteString(rare(30, nm, " "+nm))
+			b.WriteString(pick([]string{" ", "   ", "      ", "\t", " \t "}))
+			b.WriteString(sq)
+			switch r.Intn(12) {
+			case 0: // no count
+			case 1:
+				b.WriteString(" ")
+			case 2:
+				b.WriteString(" " + pick([]string{"+12", "-0", "x", "99999999999999999999", "12 ", "1 2", "0012"}))
+			default:
+				b.WriteString(pick([]string{" ", "  ", "\t"}) + fmt.Sprint(total))
+			}
+			b.WriteString(eol())
+		}
+		switch r.Intn(12) {
+		case 0: // no conservation line
+		case 1:
+			b.WriteString(eol())
+		case 2:
+			b.WriteString("   " + pick([]string{"", "*", "* : ."})) // no end of line
+		default:
+			b.WriteString(pick([]string{"    ", "\t", " "}) + pick([]string{"", "*:. ", "***", "12", "CLUSTAL"}) + eol())
+		}
+		for k := r.Intn(3); k > 0 && r.Intn(3) > 0; k-- {
+			b.WriteString("\n")
+		}
+	}
+	return b.Bytes()
 }
